@@ -238,6 +238,19 @@ func buildReport(eng *Engine, prop, tier string, units []*UnitResult, verifDir s
 			r.trusted = append(r.trusted, u.Key)
 			continue
 		}
+		for _, pre := range u.Unbound {
+			was := false
+			for _, names := range ledger {
+				for _, n := range names {
+					if strings.HasPrefix(n, pre) {
+						was = true
+					}
+				}
+			}
+			if !was {
+				r.broken = append(r.broken, fmt.Sprintf("%s: an atcall clause (%s...]) matches no call site and never did: the contract is wrong", u.Key, pre))
+			}
+		}
 		if u.Unsupported != "" {
 			r.broken = append(r.broken, fmt.Sprintf("%s: outside the supported subset: %s", u.Key, u.Unsupported))
 			continue
